@@ -68,7 +68,7 @@ def check(run: Run) -> None:
         guarded = any((not pol) and isinstance(a, ast.Call) and isinstance(a.func, ast.Attribute) and a.func.attr == "is_arg" and strip_sites(fa.term_of(a.args[0])) == ("attr", nodep, "id") for a, pol in fx.atoms)
         run.check(guarded, "C04.R1", vn, s, "substitution happens only when is_arg(node.id) is false", "a name is replaced by its captured value without first checking that it is not bound by an enclosing lambda / comprehension")
         in_tbl = any(pol and isinstance(a, ast.Compare) and isinstance(a.ops[0], ast.In) and strip_sites(fa.term_of(a.left)) == ("attr", nodep, "id") and strip_sites(fa.term_of(a.comparators[0])) == ("attr", selfp, "_lookup_dict") for a, pol in fx.atoms)
-        run.check(in_tbl, "C04.R3", vn, s, "substitution only for names in the snapshot table", "a name not in the closure snapshot is replaced")
+        run.check(in_tbl, "C04.R3", vn, s, "substitution exactly for names in the snapshot table (membership test)", "the substitution is not conditioned on membership `node.id in self._lookup_dict`: a name outside the snapshot is replaced - or, where the looked-up value itself serves as the test, a captured falsy value (0, 0.0, False, '') stays a free name instead of becoming a constant")
         # R3: what may be returned
         v = ("subscript", ("attr", selfp, "_lookup_dict"), ("attr", nodep, "id"))
         for a in unphi_terms(t):
@@ -97,7 +97,7 @@ def check(run: Run) -> None:
     for c in calls_in(va):
         if isinstance(c.func, ast.Name) and c.func.id == "getattr" and len(c.args) >= 2 and fa2.cfg.has_node(c):
             obj = strip_sites(fa2.term_of(c.args[0]))
-            if obj == ("attr", V, "value"):
+            if obj == ("attr", V, "value") and not isinstance(c.args[1], ast.Constant):
                 n_fold += 1
                 fx = Facts(fa2, c)
                 _check_fold_guard(run, fa2, va, c, "C04.R2")
@@ -525,7 +525,9 @@ def _check_fold_guard(run: Run, fa, va: FuncInfo, fold_call: ast.Call, rule: str
                 exists = True
             if same and a.func.id == "getattr" and pol:
                 truthy.append(ast.unparse(a))
-    run.check(exists and not truthy, rule, va, stmt_of(fold_call), "captured attribute folded whenever it exists (hasattr), whatever its value", "the attribute of a captured object is folded only when " + (f"{truthy[0]} is truthy" if truthy else "some condition other than hasattr(object, name) holds") + ": a captured attribute whose value is 0, 0.0, '' or False stays in the query as a Python-side attribute reference instead of its value", "hasattr(value.value, node.attr)")
+    own_dict = [ast.unparse(a) for a, pol in Facts(fa, fold_call).atoms if pol and isinstance(a, ast.Compare) and len(a.ops) == 1 and isinstance(a.ops[0], ast.In) and any((isinstance(x, ast.Attribute) and x.attr == "__dict__") or (isinstance(x, ast.Constant) and x.value == "__dict__") or (isinstance(x, ast.Name) and x.id == "vars") for x in ast.walk(a.comparators[0]))]
+    why = (f"{truthy[0]} is truthy" if truthy else (f"{own_dict[0][:70]} holds - the object's own __dict__ has neither what its class (or a base class) defines nor, seen from a class, what it inherits: a class constant reached through a subclass or an instance stays in the query as a Python-side attribute reference" if own_dict else "some condition other than hasattr(object, name) holds"))
+    run.check(exists and not truthy, rule, va, stmt_of(fold_call), "captured attribute folded whenever it exists (hasattr), whatever its value", "the attribute of a captured object is folded only when " + why + ": a captured attribute whose value is 0, 0.0, '' or False stays in the query as a Python-side attribute reference instead of its value", "hasattr(value.value, node.attr)")
 
 
 def check_attribute_fold(run: Run, ctx, m, rule: str) -> None:
@@ -539,6 +541,8 @@ def check_attribute_fold(run: Run, ctx, m, rule: str) -> None:
     n = 0
     for c in calls_in(va):
         if isinstance(c.func, ast.Name) and c.func.id == "getattr" and len(c.args) in (2, 3) and fa2.cfg.has_node(c) and strip_sites(fa2.term_of(c.args[0])) == ("attr", V, "value"):
+            if isinstance(c.args[1], ast.Constant):
+                continue  # reads a fixed attribute of the captured object (__dict__, __class__ ..), not the one the query names
             n += 1
             _check_fold_guard(run, fa2, va, c, rule)
     run.floor(rule, n, 1, "attribute folding sites")
